@@ -269,4 +269,33 @@ class Identifiers(object):
         return check_set([mod], ['TEST-MIB'], 'C04|identifier|%s|%s' % (case['w'], case['kind']))
 
 
-FAMILIES = [Sequences(), CrossModule(), Identifiers()]
+class TypeChains(object):
+    name = 'type-chains'
+    describe = ('three named types forming a dependency chain (base <- middle <- derived; plain assignments and at most one TC), every '
+                'assignment of the names Alpha / Mid / Zulu to the three positions x every declaration order, used by an object')
+
+    def blocks(self, tier):
+        return [{'tc': t} for t in (None, 0, 1, 2)]
+
+    def cases(self, block, tier):
+        for names in itertools.permutations(['AlphaType', 'MidType', 'ZuluType']):
+            for order in itertools.permutations(range(3)):
+                yield {'tc': block['tc'], 'names': list(names), 'order': list(order)}
+
+    def run_case(self, case):
+        names = case['names']
+        syns = [('simple', 'INTEGER', ('range', [(0, 1000)])), ('ref', names[0], ('range', [(0, 100)])), ('ref', names[1])]
+        decls = []
+        for i in range(3):
+            if case['tc'] == i:
+                decls.append({'k': 'tc', 'name': names[i], 'display': None, 'status': 'current', 'descr': 'd', 'syntax': syns[i]})
+            else:
+                decls.append({'k': 'type', 'name': names[i], 'syntax': syns[i]})
+        decls = [decls[i] for i in case['order']]
+        alld = C03.context() + decls + [C03ot('userObj', ('ref', names[2]), ['ctxRoot', 60])]
+        mod = refir.finish_module({'name': 'TEST-MIB', 'decls': alld})
+        alpha = names.index('AlphaType')
+        return check_set([mod], ['TEST-MIB'], 'C04|type-chain|tc=%s|alpha-at=%d' % (case['tc'], alpha))
+
+
+FAMILIES = [Sequences(), CrossModule(), Identifiers(), TypeChains()]
